@@ -364,9 +364,18 @@ def run_case(ctx, w, decls, inputs, form, rng, full_cold, order_check, kind):
     cans = real_can(w, pairs)
     # to_json
     tj_req, tj_real = [], []
+    def viewable(u, o):
+        return spec(w, decls, inputs, u, 'view', {'o': list(o)}) or spec(w, decls, inputs, u, 'edit', {'o': list(o)})
     for _ in range(3):
         u = rng.choice(USERS)
         data = rng.sample(w.objs, rng.choice([1, 1, 2, 3]))
+        if rng.random() < 0.75:
+            # prefer a user who may view something, and data made of objects that user may view
+            cands = [(uu, [o for o in w.objs if viewable(uu, o)]) for uu in USERS]
+            cands = [c for c in cands if c[1]]
+            if cands:
+                u, vis = rng.choice(cands)
+                data = rng.sample(vis, min(len(vis), rng.choice([1, 2, 3])))
         include = rng.sample([w.A.b, w.B.as_, w.B.cs, w.C.bs], rng.choice([0, 1, 2, 4]))
         related = defaultdict(list)
         for e in w.ents:
@@ -547,6 +556,10 @@ def run(ctx):
     for i in range(n):
         k = rng.choice([0, 1, 2, 2, 3, 3]) if i else 0
         decls = [gen_decl(w, rng) for _ in range(k)]
+        if k and rng.random() < 0.35:
+            # a broad rule, so that whole object graphs are viewable
+            decls[rng.randrange(k)] = {'ents': rng.choice([[0, 2, 3], [0, 2], [2, 3]]), 'perms': [rng.choice(['view', 'edit'])],
+                                        'groups': rng.choice([[], ['g1']]), 'roles': [], 'labels': [], 'excl': rng.choice([[], [], [{'e': 1}]])}
         cases.append(run_case(ctx, w, decls, gen_inputs(w, rng), rng.randrange(5), rng, full_cold=(i % 20 == 1), order_check=(i % 3 == 0), kind='%d-rules' % k))
     reset_rules(w)
     if not ctx.driver.ok:
